@@ -11,7 +11,7 @@ R-COX-HESS   raw_hessian - diag of the Hessian of value is a sum of positive ter
 """
 from fractions import Fraction
 
-from ..algebra import RF, Unsupported, const, sym, derivative
+from ..algebra import RF, Unsupported, const, sym, derivative, substitute
 from ..region import Region, RegionLifter, Vec, Mat, Obj, R, Raised
 from ..model import AnalysisError
 from .control import loc
@@ -431,3 +431,52 @@ def r_cox_global(A, ctx, scope, rule="R-COX-GLIP"):
         except (Unsupported, Raised, ZeroDivisionError) as e:
             ctx.ob(rule, f"{cls.fq}::get_global_lipschitz::{tag}", None, detail=f"not lifted: {e}")
     ctx.floor(rule, n_ob, 5)
+
+
+def r_istep_multitask(A, ctx, scope, rule="R-ISTEP-TASKS"):
+    """C06 / C01: per-task intercept steps of multitask datafits"""
+    prog = A.prog
+    ctx.rule(rule, "multitask datafits: intercept_update_step returns one entry per task, each a positive "
+             "multiple (the same for every task) of d value / d intercept_t, with value() lifted on a "
+             "3-sample, 2-task problem where the intercept of task t is added to column t of XW")
+    n = 0
+    for dcls in prog.datafits:
+        if not dcls.is_subclass_of(prog.BaseMultitaskDatafit):
+            continue
+        m = dcls.find_method("intercept_update_step")
+        if m is None or m.cls.name.startswith("Base"):
+            continue
+        key = f"{dcls.fq}::intercept_update_step"
+        try:
+            vals = {"b0": 0.0, "b1": 0.0}
+            for i in range(3):
+                for t in range(2):
+                    vals[f"Y{i}{t}"] = 0.4 * (t + 1) - 0.3 * i
+                    vals[f"XW{i}{t}"] = 0.25 * (t + 1) + 0.2 * i - 0.1 * t * i
+            rg = Region(vals)
+            L = RegionLifter(prog, rg)
+            from .kernels import make_obj
+            dobj = make_obj(prog, dcls)
+            Y = Mat(Vec(sym(f"Y{i}{t}") for t in range(2)) for i in range(3))
+            XW = Mat(Vec(sym(f"XW{i}{t}") for t in range(2)) for i in range(3))
+            XWb = Mat(Vec(sym(f"XW{i}{t}") + sym(f"b{t}") for t in range(2)) for i in range(3))
+            step = L.call_function(m, [Y, XW], self_obj=dobj)
+            val = R(L.call_function(dcls.find_method("value"), [Y, None, XWb], self_obj=dobj))
+            n += 1
+            if not isinstance(step, (Vec, list)) or len(step) != 2:
+                ctx.ob(rule, key, False,
+                       what=f"{dcls.name}.intercept_update_step does not return one step per task (got "
+                            f"{'a scalar' if not isinstance(step, (Vec, list)) else len(step)} for 2 tasks): every "
+                            "task's intercept is moved by the same amount and the intercept part of the "
+                            "stopping test is a single number", loc=loc(m, m.node))
+                continue
+            dv = [substitute(derivative(val, ("sym", f"b{t}")), {("sym", "b0"): const(0), ("sym", "b1"): const(0)})
+                  for t in range(2)]
+            prop = (R(step[0]) * dv[1]).equals(R(step[1]) * dv[0])
+            ratio = rg.num(R(step[0])) / rg.num(dv[0]) if rg.num(dv[0]) else float("nan")
+            ctx.ob(rule, key, prop and ratio > 0,
+                   what=f"{dcls.name}.intercept_update_step is not a positive multiple of the intercept "
+                        f"gradient of value() task by task (ratio on task 0: {ratio:.4g})", loc=loc(m, m.node))
+        except (Unsupported, Raised, ZeroDivisionError) as e:
+            ctx.ob(rule, key, None, detail=f"not lifted: {e}")
+    ctx.floor(rule, n, 1)
